@@ -112,9 +112,9 @@ Definition mem_N (l : list N) (x : N) : bool := existsb (N.eqb x) l.
 Definition hidden_ids (fs : fsys) (hide : list bytes) : list N :=
   flat_map (fun h => match fs_open fs h with Some hn => [n_id hn] | None => [] end) hide.
 
-(* Accept-Encoding: strings.Split(",") then TrimSpace then exact comparison *)
-Definition is_space (c : N) : bool :=
-  (c =? 32) || (c =? 9) || (c =? 10) || (c =? 13) || (c =? 11) || (c =? 12).
+(* Accept-Encoding: strings.Split(",") then strings.Trim(acc, " \t") (SP / HTAB, the optional
+   white space HTTP allows around a list element) then exact comparison *)
+Definition is_space (c : N) : bool := (c =? 32) || (c =? 9).
 Fixpoint drop_spaces (l : bytes) : bytes :=
   match l with c :: r => if is_space c then drop_spaces r else l | [] => [] end.
 Definition trim_spaces (s : bytes) : bytes := rev (drop_spaces (rev (drop_spaces s))).
